@@ -66,6 +66,12 @@ pub fn scenario(idx: usize, seed: u64, max_steps: usize) -> ScenarioResult {
         lc.config.max_concurrent_connections = limit;
         lc.config.connect_timeout_ms = Some(2_000);
         lc.config.connectivity_check_interval_ms = Some(500);
+        // settings and activity of the listener that admission must NOT depend on: the cap on
+        // connections being established by background dialing, and explicit dials of its own
+        // that are still pending (towards silent addresses) while peers arrive
+        let dial_cap: Option<usize> = *[None, None, Some(0), Some(1), Some(2)].get(rng.gen_range(0..5)).unwrap();
+        lc.config.max_concurrent_outstanding_connecting_connections = dial_cap;
+        let pending_own_dials = if rng.gen_bool(0.35) { rng.gen_range(1..=3usize) } else { 0 };
         let mut q = anemo::QuicConfig::default();
         q.max_idle_timeout_ms = Some(600_000);
         q.keep_alive_interval_ms = Some(5_000);
@@ -89,7 +95,18 @@ pub fn scenario(idx: usize, seed: u64, max_steps: usize) -> ScenarioResult {
             dialers.push(d);
         }
         // one extra node that the limited node reaches by background dialing (High, with address)
-        let bg = if rng.gen_bool(0.4) {
+        let mut own_dial_tasks = Vec::new();
+        for k in 0..pending_own_dials {
+            let net = l.net.clone();
+            let a: std::net::SocketAddr = format!("10.99.{}.{}:9", 1 + (idx / 250) % 250, 1 + (idx % 250)).parse().unwrap();
+            let a = std::net::SocketAddr::new(a.ip(), 9 + k as u16);
+            own_dial_tasks.push(tokio::spawn(async move {
+                loop {
+                    let _ = net.connect(a).await; // fails after the 2 s connect timeout; start over
+                }
+            }));
+        }
+        let bg = if dial_cap.is_none() && pending_own_dials == 0 && rng.gen_bool(0.5) {
             let mut c = NodeCfg::new(w.gen_key());
             c.config.quic = Some(q.clone());
             let b = w.start_node(c).unwrap();
@@ -233,10 +250,13 @@ pub fn scenario(idx: usize, seed: u64, max_steps: usize) -> ScenarioResult {
             let _ = step;
         }
         let sample = json!({
-            "scenario": idx, "seed": seed, "limit": limit, "dialers": nd,
+            "scenario": idx, "seed": seed, "limit": limit, "dialers": nd, "background_dial_cap": dial_cap, "own_dials_pending_throughout": pending_own_dials,
             "arrivals": arrivals, "admitted": admitted, "rejected": rejected,
             "history": trace.iter().take(70).collect::<Vec<_>>(),
         });
+        for t in own_dial_tasks {
+            t.abort();
+        }
         w.close();
         let res = if !problems.is_empty() {
             let mut wit = sample;
